@@ -7,6 +7,16 @@ HERE = os.path.dirname(os.path.dirname(os.path.abspath(__file__)))
 
 # id -> (technique, level text, level note)
 CHECKS = {
+    "C01": (
+        "bounded exhaustive exploration of update sequences on all 15 real detectors, table-driven lifecycle monitor as invariant oracle",
+        "For each of the 15 public detectors and several parameter sets every sequence of accepted updates over a small alphabet "
+        "(tuned so that alarms, back-to-back drifts and third epochs occur inside the bound) is executed on the real object; PCACD "
+        "uses a long default history with every choice of <= k deviations. After every call a monitor that derives its expectations "
+        "only from the fed events checks state domain, total counter, since-reset counter (detector-specific restart values), the "
+        "warm-up table and the retraining_recs contract. Exhaustive within the stated depth / deviation bound.",
+        "Trusted: the lifecycle table in checks/c01.py (taken from the property text), the drivers' alphabets; documented "
+        "ValueError of CUSUM for sd=0 and sklearn's zero-bandwidth rejection end a branch without verdict.",
+    ),
     "C05": (
         "bounded exhaustive enumeration of all binary outcome sequences on the real detectors, lock-step against executable specifications",
         "Every binary outcome sequence up to the stated length is executed on the real DDM/EDDM/STEPD objects for every "
